@@ -387,7 +387,8 @@ static sexp_uint_t integer_log2 (sexp_uint_t x) {
 sexp sexp_integer_length (sexp ctx, sexp self, sexp_sint_t n, sexp x) {
   sexp_sint_t tmp;
 #if SEXP_USE_BIGNUMS
-  sexp_sint_t hi;
+  sexp_sint_t hi, i;
+  sexp_uint_t top;
 #endif
   if (sexp_fixnump(x)) {
     tmp = sexp_unbox_fixnum(x);
@@ -395,8 +396,17 @@ sexp sexp_integer_length (sexp ctx, sexp self, sexp_sint_t n, sexp x) {
 #if SEXP_USE_BIGNUMS
   } else if (sexp_bignump(x)) {
     hi = sexp_bignum_hi(x);
-    return sexp_make_fixnum(integer_log2(sexp_bignum_data(x)[hi-1])
-                            + (hi-1)*sizeof(sexp_uint_t)*CHAR_BIT);
+    top = sexp_bignum_data(x)[hi-1];
+    tmp = integer_log2(top) + (hi-1)*sizeof(sexp_uint_t)*CHAR_BIT;
+    /* for negative x this is the length of |x| - 1: */
+    /* one less when |x| is a power of two */
+    if (sexp_bignum_sign(x) < 0 && (top & (top - 1)) == 0) {
+      for (i=hi-2; i>=0 && sexp_bignum_data(x)[i] == 0; i--)
+        ;
+      if (i < 0)
+        tmp--;
+    }
+    return sexp_make_fixnum(tmp);
 #endif
   } else {
     return sexp_type_exception(ctx, self, SEXP_FIXNUM, x);
